@@ -14,8 +14,10 @@ pub struct Violation {
 
 #[derive(Default)]
 pub struct Report {
-    pub req: Vec<String>,
-    pub imp: Vec<String>,
+    /// request / reply lines are streamed to `req.txt` / `impl.txt` (a thorough run has millions)
+    req_w: Option<std::io::BufWriter<std::fs::File>>,
+    imp_w: Option<std::io::BufWriter<std::fs::File>>,
+    pub nreq: usize,
     pub violations: Vec<Violation>,
     pub samples: Vec<String>,
     pub dist: BTreeMap<String, u64>,
@@ -35,17 +37,22 @@ fn hash(s: &str) -> u64 {
 }
 
 impl Report {
-    pub fn new() -> Report {
-        Report::default()
+    pub fn new(dir: &str) -> Report {
+        std::fs::create_dir_all(dir).expect("output directory");
+        let mut r = Report::default();
+        r.req_w = Some(std::io::BufWriter::new(std::fs::File::create(format!("{}/req.txt", dir)).expect("req.txt")));
+        r.imp_w = Some(std::io::BufWriter::new(std::fs::File::create(format!("{}/impl.txt", dir)).expect("impl.txt")));
+        r
     }
 
     /// A request for the Lean driver and the implementation's reply to the same request.
     pub fn tie(&mut self, req: String, imp: String) {
-        if self.samples.len() < 12 && (self.req.len() % 97 == 0) {
+        if self.samples.len() < 12 && (self.nreq % 97 == 0) {
             self.samples.push(format!("{} => {}", req, imp));
         }
-        self.req.push(req);
-        self.imp.push(imp);
+        self.nreq += 1;
+        writeln!(self.req_w.as_mut().expect("report has an output directory"), "{}", req).expect("write req.txt");
+        writeln!(self.imp_w.as_mut().expect("report has an output directory"), "{}", imp).expect("write impl.txt");
     }
 
     pub fn count(&mut self, key: &str) {
@@ -79,20 +86,16 @@ impl Report {
         self.violations.len() >= 300
     }
 
-    pub fn write(&self, dir: &str) -> std::io::Result<()> {
+    pub fn write(&mut self, dir: &str) -> std::io::Result<()> {
         std::fs::create_dir_all(dir)?;
-        let mut f = std::io::BufWriter::new(std::fs::File::create(format!("{}/req.txt", dir))?);
-        for l in &self.req {
-            writeln!(f, "{}", l)?;
+        if let Some(w) = self.req_w.as_mut() {
+            w.flush()?;
         }
-        f.flush()?;
-        let mut f = std::io::BufWriter::new(std::fs::File::create(format!("{}/impl.txt", dir))?);
-        for l in &self.imp {
-            writeln!(f, "{}", l)?;
+        if let Some(w) = self.imp_w.as_mut() {
+            w.flush()?;
         }
-        f.flush()?;
         let mut f = std::io::BufWriter::new(std::fs::File::create(format!("{}/report.json", dir))?);
-        write!(f, "{{\"evaluations\":{},\"distinct_nontrivial\":{},\"requests\":{},", self.evaluations, self.nontrivial, self.req.len())?;
+        write!(f, "{{\"evaluations\":{},\"distinct_nontrivial\":{},\"requests\":{},", self.evaluations, self.nontrivial, self.nreq)?;
         write!(f, "\"violations\":[")?;
         for (i, v) in self.violations.iter().enumerate() {
             if i > 0 {
